@@ -246,6 +246,25 @@ func run(c *mc.Ctx) {
 	for _, s := range []string{"/a/../../%2e%2e/a", "%2f..%2f.", "\\..\\a/%2e/./"} {
 		c.Sample(map[string]string{"target": s, "path": RefPath(s)})
 	}
+	// absolute-form targets whose authority is followed directly by a query or a fragment: the path is empty ("/"),
+	// whatever slashes the query or fragment contains
+	for _, host := range []string{"h.com", "h.com:8080", "[::1]:80"} {
+		for _, tail := range []string{"", "/", "?x=/admin", "#/admin", "?x=/a/../b#/c", "?x=1", "#f", "/p?x=/y", "/p#/y"} {
+			target := "http://" + host + tail
+			wantPath := "/"
+			if strings.HasPrefix(tail, "/p") {
+				wantPath = "/p"
+			}
+			for _, h := range [][]byte{nil, []byte("other")} {
+				u := &protocol.URI{}
+				u.Parse(h, []byte(target))
+				c.Add("executions", 1)
+				if string(u.Path()) != wantPath || string(u.Host()) != strings.ToLower(host) {
+					c.Violate("absolute-form-authority", fmt.Sprintf("URI.Parse(%q,%q): host=%q path=%q query=%q, expected host %q and path %q (the authority ends at the first of '/', '?', '#')", h, target, u.Host(), u.Path(), u.QueryString(), strings.ToLower(host), wantPath), Case{target})
+				}
+			}
+		}
+	}
 	enum(c, base, nb, "base", "")
 	enum(c, ext, ne, "ext", "")
 	// long targets: the same token strings behind paddings that straddle CleanPath's 128-byte stack buffer
@@ -259,6 +278,23 @@ func run(c *mc.Ctx) {
 func replay(c *mc.Ctx, raw json.RawMessage) {
 	var cs Case
 	if json.Unmarshal(raw, &cs) != nil {
+		return
+	}
+	if strings.HasPrefix(cs.Target, "http://") {
+		u := &protocol.URI{}
+		u.Parse(nil, []byte(cs.Target))
+		rest := strings.TrimPrefix(cs.Target, "http://")
+		i := strings.IndexAny(rest, "/?#")
+		host, wantPath := rest, "/"
+		if i >= 0 {
+			host = rest[:i]
+			if strings.HasPrefix(rest[i:], "/p") {
+				wantPath = "/p"
+			}
+		}
+		if string(u.Path()) != wantPath || string(u.Host()) != host {
+			c.Violate("absolute-form-authority", fmt.Sprintf("URI.Parse(nil,%q): host=%q path=%q", cs.Target, u.Host(), u.Path()), cs)
+		}
 		return
 	}
 	for _, suf := range targetSuffixes {
